@@ -14,12 +14,16 @@ pub struct Inode {
     pub mode: u32,
     pub data: Vec<u8>,
     pub nlink: u32,
+    /// modification time (unix seconds on the simulated clock; not part of the disk digest)
+    pub mtime: i64,
 }
 
 #[derive(Clone, Debug, PartialEq, Eq)]
 pub struct Disk {
     pub inodes: BTreeMap<u64, Inode>,
     pub names: BTreeMap<String, u64>,
+    /// the simulated clock, stamped on files as they are created or modified
+    pub clock: i64,
     pub next_ino: u64,
 }
 
@@ -106,8 +110,8 @@ impl Default for Disk {
 
 impl Disk {
     pub fn new() -> Disk {
-        let mut d = Disk { inodes: BTreeMap::new(), names: BTreeMap::new(), next_ino: 2 };
-        d.inodes.insert(1, Inode { is_dir: true, mode: 0o755, data: vec![], nlink: 2 });
+        let mut d = Disk { inodes: BTreeMap::new(), names: BTreeMap::new(), clock: 0, next_ino: 2 };
+        d.inodes.insert(1, Inode { is_dir: true, mode: 0o755, data: vec![], nlink: 2, mtime: 0 });
         d.names.insert(ROOT.to_string(), 1);
         d
     }
@@ -150,7 +154,7 @@ impl Disk {
         } else {
             let ino = self.next_ino;
             self.next_ino += 1;
-            self.inodes.insert(ino, Inode { is_dir: false, mode: 0o644, data: data.to_vec(), nlink: 1 });
+            self.inodes.insert(ino, Inode { is_dir: false, mode: 0o644, data: data.to_vec(), nlink: 1, mtime: 0 });
             self.names.insert(path.to_string(), ino);
         }
     }
@@ -163,7 +167,7 @@ impl Disk {
         self.mkdir_p(&parent);
         let ino = self.next_ino;
         self.next_ino += 1;
-        self.inodes.insert(ino, Inode { is_dir: true, mode: 0o700, data: vec![], nlink: 2 });
+        self.inodes.insert(ino, Inode { is_dir: true, mode: 0o700, data: vec![], nlink: 2, mtime: 0 });
         self.names.insert(path.to_string(), ino);
     }
 
@@ -183,21 +187,29 @@ impl Disk {
             Op::Mkdir { path, mode } => {
                 let ino = self.next_ino;
                 self.next_ino += 1;
-                self.inodes.insert(ino, Inode { is_dir: true, mode: *mode, data: vec![], nlink: 2 });
+                self.inodes.insert(ino, Inode { is_dir: true, mode: *mode, data: vec![], nlink: 2, mtime: 0 });
                 self.names.insert(path.clone(), ino);
             }
             Op::Create { path, mode } => {
                 let ino = self.next_ino;
                 self.next_ino += 1;
-                self.inodes.insert(ino, Inode { is_dir: false, mode: *mode, data: vec![], nlink: 1 });
+                self.inodes.insert(ino, Inode { is_dir: false, mode: *mode, data: vec![], nlink: 1, mtime: self.clock });
                 self.names.insert(path.clone(), ino);
             }
             Op::Truncate { ino, len } => {
+                let clock = self.clock;
                 if let Some(i) = self.inodes.get_mut(ino) {
                     i.data.resize(*len as usize, 0);
+                    i.mtime = clock;
                 }
             }
-            Op::Write { ino, off, data } => self.apply_write(*ino, *off, data),
+            Op::Write { ino, off, data } => {
+                self.apply_write(*ino, *off, data);
+                let clock = self.clock;
+                if let Some(i) = self.inodes.get_mut(ino) {
+                    i.mtime = clock;
+                }
+            }
             Op::Rename { from, to } => {
                 if let Some(ino) = self.names.remove(from) {
                     let is_dir = self.inodes.get(&ino).map(|i| i.is_dir).unwrap_or(false);
@@ -367,6 +379,7 @@ pub struct Stat {
     pub mode: u32, // with S_IFMT bits
     pub size: u64,
     pub nlink: u32,
+    pub mtime: i64,
 }
 
 pub struct SimFs {
@@ -710,7 +723,7 @@ impl SimFs {
     fn stat_ino(&self, ino: u64) -> R<Stat> {
         let i = self.disk.inodes.get(&ino).ok_or(libc::ENOENT)?;
         let ty = if i.is_dir { libc::S_IFDIR } else { libc::S_IFREG };
-        Ok(Stat { ino, mode: ty | i.mode, size: i.data.len() as u64, nlink: i.nlink })
+        Ok(Stat { ino, mode: ty | i.mode, size: i.data.len() as u64, nlink: i.nlink, mtime: i.mtime })
     }
 
     pub fn fstat(&mut self, fd: i32) -> R<Stat> {
